@@ -570,6 +570,15 @@ func (g *Gen) evalModLoc(text string, env *Env) []modLoc {
 			return []modLoc{ml}
 		}
 	}
+	if gt, ok := g.ghostFieldType(env, p.T, sel.Name); ok {
+		var ml modLoc
+		ml.base = p.Idx[0]
+		for _, l := range g.leaves(gt) {
+			ml.heaps = append(ml.heaps, p.Prefix+".ghost:"+sel.Name+l.Path)
+			ml.sorts = append(ml.sorts, g.heapSort(l.Sort, len(p.Idx)))
+		}
+		return []modLoc{ml}
+	}
 	panic(contractErr("modifies %s: no such field", text))
 }
 
